@@ -16,6 +16,8 @@ fn run_case(c: &[String]) -> String {
         1 => text::lex_case(&cps(&c[1..])),
         2 => text::highlight_case(c[1].parse().unwrap(), &cps(&c[2..])),
         3 => text::highlight_check_case(c[1].parse().unwrap(), &cps(&c[2..])),
+        4 => text::parse_text_case(&cps(&c[1..])),
+        5 => text::parse_all_case(&cps(&c[1..])),
         _ => "BADCASE".into(),
     }
 }
